@@ -66,6 +66,9 @@ class Harness(cm.BaseB):
         for n in list(range(2, 15)) + [16, 24, 96, 384]:
             out.append({"k": "pairs", "n": n})
         out.append({"k": "errors"})
+        # the selection inside the script commands a worklist emits, for plates and both kinds of trough
+        for kind in ("plate", "trough", "gtrough"):
+            out.append({"k": "wl", "kind": kind})
         return out
 
     def run_pairs(self, chunk, st):
@@ -124,10 +127,50 @@ class Harness(cm.BaseB):
             V.append(("C12/decoded-selection/order-dependent", f"{R}x{C}: after a refused call with wells {bad}, selecting {good} gives {s!r} which decodes to {sorted(got)}"))
         return V
 
+    def run_wl(self, chunk, st):
+        for R, C in ((2, 1), (3, 2), (8, 3), (5, 12)):
+            for c in sorted({0, C - 1}):
+                for mask in range(1, 1 << R):
+                    if R == 8 and mask % 3 and bin(mask).count("1") not in (1, 8):
+                        continue
+                    rows = [r for r in range(R) if mask >> r & 1]
+                    case = {"wl": [chunk["kind"], R, C, c, rows]}
+                    viol = self.one_wl(case)
+                    st.case("wl:" + chunk["kind"], case if len(rows) > 1 else None, f"wl{case}")
+                    for v in viol:
+                        st.violation(v[0], case, v[1])
+
+    def one_wl(self, case):
+        from ..world import rt
+
+        kind, R, C, c, rows = case["wl"]
+        if kind == "plate":
+            lw = rt.Labware("L", R, C, min_volume=0, max_volume=1e5, initial_volumes=1e4)
+        elif kind == "trough":
+            lw = rt.Trough("L", R, C, min_volume=0, max_volume=1e6, initial_volumes=[1e5] * C)
+        else:
+            lw = rt.Labware("L", 1, C, min_volume=0, max_volume=1e6, initial_volumes=[[1e5] * C], virtual_rows=R)
+        wells = [well_id(r, c) for r in rows]
+        V = []
+        for op in ("evo_aspirate", "evo_dispense"):
+            wl = rt.EvoWorklist(max_volume=950)
+            try:
+                getattr(wl, op)(lw, wells, (30, 2), list(range(1, len(rows) + 1)), 10.0, "LC")
+                p = gwl.parse(wl[-1])
+                cols, nrows, got, pad = gwl.decode_selection(p["selection"])
+            except Exception as e:
+                V.append(("C12/raised", f"{op} on a {kind} {R}x{C}, wells {wells}: {type(e).__name__}: {e}"))
+                continue
+            if (nrows, cols) != (R, C) or got != {(r, c) for r in rows} or pad:
+                V.append(("C12/decoded-selection", f"{op} on a {kind} with {R} rows x {C} columns, wells {wells}: the command's selection {p['selection']!r} decodes to {nrows}x{cols} {sorted(got)}"))
+        return V
+
     def run_chunk(self, chunk, st):
         cm.clear_caches()
         if chunk["k"] == "errors":
             return self.run_errors(chunk, st)
+        if chunk["k"] == "wl":
+            return self.run_wl(chunk, st)
         if chunk["k"] == "pairs":
             return self.run_pairs(chunk, st)
         if chunk["k"] == "all":
@@ -165,6 +208,8 @@ class Harness(cm.BaseB):
             cm.vandalize_helpers(case["R"], case["C"])
         if "errseq" in case:
             return [[c, d] for c, d in self.one_errseq(case)]
+        if "wl" in case:
+            return [[c, d] for c, d in self.one_wl(case)]
         if "seq" in case:
             (R1, C1, s1), (R2, C2, s2) = case["seq"]
             cm.vandalize_helpers(R1, C1)
